@@ -25,3 +25,4 @@ _reg("C16")
 _reg("C17", "interp")
 _reg("C27")
 _reg("C19")
+_reg("C24")
